@@ -46,6 +46,10 @@ def run(facts, rep, ctx):
                    'compared as polynomials in r, k and q = r / k, so algebraically equivalent rewrites are accepted')
     w = facts.method(OCC, 'new')
     g = facts.method(OCC, 'get')
+    if g is not None:
+        # private helpers of the reader (e.g. the look-ahead branch as its own function) are analysed in place
+        from . import inline
+        g = inline.inlined(facts, g, lambda pth: pth.rsplit('::', 1)[-1] in ('new', 'get'))
     if w is None or g is None:
         rep.missing(rule, OCC + '::{new,get}', 'not found')
         return
